@@ -55,6 +55,7 @@ class Rule:
         self.functions = set()
         self.notes = []
         self.broken = None
+        self.own_opinion = False
         self.follows_values = False     # the rule tracks values through locals itself (see engine: second opinion)
 
     def ob(self, fn, what, ok=True):
@@ -220,6 +221,9 @@ def run_property(prop_id, module, tier="quick", configs=None, replay=None):
                         semantic = r.template in SEMANTIC_TEMPLATES or getattr(r, "follows_values", False)
                         for f in r.findings:
                             confirmed = True
+                            if getattr(r, "own_opinion", False):
+                                keep.append(f)       # the rule's anchors are all inside one function body: no view adds anything
+                                continue
                             for vi, (_, n) in enumerate(alts):
                                 vprog = view_progs.get(_)
                                 vf = vprog.fn(f.function, f.file) if vprog is not None and f.function != "?" else None
